@@ -65,10 +65,11 @@ func checkC16(c *Ctx) {
 		"(every predefined element is allocated per execution); (C16.singletons) inventory of all package-level variables that can carry mutable state (pointers to structs, maps of non-basic values, interfaces) in the analysed packages: each may be read only by the functions " +
 		"listed in the reviewed table, so none of them can reach a VM (who-may-read rule over go/ssa); (C16.nowrite) no package-level variable, nor anything reached through a load of one, is written outside init functions; " +
 		"(C16.defaults) class defaults are copied per instance (C07.obj/C07.dup rules); (C16.race) from every ServeHTTP method of pkg/server (darwin build) no call stores into a field of an object that outlives the request (receiver-reachable) without a lock. " +
-		"NOT decided: absence of data races in general, process-level state (files, stdout), stdlib/http (does not compile)."
+		"NOT decided: absence of data races in general, process-level state (files, stdout), stdlib/http (does not compile). (C16.dupfresh) DuplicateValue never hands back a value of a kind that some built-in method changes in place (the kinds are computed from the field stores of the built-in methods)."
 	R.Assumptions = []string{"Go package initialisation runs once before any execution", "tables/singletons.json reviewed"}
 	u := c.Core()
 	u.buildSSA()
+	ruleDupFresh(c, u, "C16.dupfresh")
 
 	// ---- C16.fresh
 	for _, m := range []struct{ rel, fn string }{{"pkg/exec", "Interpreter.Execute"}, {"pkg/exec", "ExecVarInputText"}, {"pkg/exec", "ExecExpressionInputText"}} {
@@ -167,6 +168,13 @@ func checkC16(c *Ctx) {
 	for _, key := range globals {
 		e, listed := table[key]
 		if !listed {
+			// a lookup table: a map / slice / array of functions or plain values (no pointer to anything a program could
+			// change), which is only ever indexed, ranged over or measured - never handed on, and (C16.nowrite) never
+			// written after init: nothing of it can carry state
+			if why := readOnlyLookupTable(u, key, gtype[key]); why != "" {
+				R.hold("C16.singletons", key, "", "lookup table: "+why)
+				continue
+			}
 			R.undecided("C16.singletons", key, "", "package-level variable of a mutable type ("+typeShort(gtype[key])+") that the reviewed table does not list: decide who may read it")
 			continue
 		}
@@ -306,7 +314,7 @@ func checkC20(c *Ctx) {
 		"(C20.counter) every store to refCount is a function of its previous value (reservation discipline: ±k, or the capped target computed from it) - an assignment from len(childs) forgets head-room reserved for spawns still in flight, which is what lets the pool exceed --max-procs; " +
 		"(C20.cap) the scale-up batch is min(refCount+step, MaxProcs) − refCount and the replacement batch InitProcs − refCount is spawned only when positive; " +
 		"(C20.worker) in StartWorker every path from one Accept to the next passes the select that waits for the handler's completion, the timeout channel is created per request inside the loop, BUSY is reported before the handler starts, IDLE only on the completion branch, " +
-		"and the timeout branch reports STOPPED and cannot reach another Accept (it exits). (C20.env) cmd.Env = append(os.Environ(), own entries…): the configured timeout / pipe id win over inherited variables. (C20.channels) addChan / delChan are sent on only by spawnProcess (and the goroutine it starts), updateChan only by the pipe reader; every increase of refCount is followed by the goroutine that starts the reserved workers. NOT decided: the bounds themselves under real scheduling, recovery after crashes, pipe framing - these quantify over schedules and fault sequences (a different family of technique)."
+		"and the timeout branch reports STOPPED and cannot reach another Accept (it exits). (C20.env) cmd.Env = append(os.Environ(), own entries…): the configured timeout / pipe id win over inherited variables. (C20.channels) addChan / delChan are sent on only by spawnProcess (and the goroutine it starts), updateChan only by the pipe reader; every increase of refCount is followed by the goroutine that starts the reserved workers. NOT decided: the bounds themselves under real scheduling, recovery after crashes, pipe framing - these quantify over schedules and fault sequences (a different family of technique). (C20.exit) in the goroutine that waits for a worker every path from cmd.Wait() to its end sends the pid on delChan; a worker is written off (refCount decreased, entry deleted) only in the branch of the select that handles delChan."
 	R.Assumptions = []string{"pkg/server can only be type-checked for darwin/windows at the pinned commit; nothing of it is built or run here", "one goroutine runs maintainChildState"}
 	su := c.Server()
 	su.buildSSA()
@@ -543,6 +551,90 @@ func checkC20(c *Ctx) {
 			}
 		}
 		R.min("C20.counter", 4)
+		// one worker, one exit: the counter goes down (and the worker leaves the table) only in the branch that handles
+		// an exit event (the delChan case of the select) - a worker written off on any other event is written off twice
+		var sel *ssa.Select
+		delCase := -1
+		for _, in := range instrsOf(f) {
+			if sx, ok := in.(*ssa.Select); ok {
+				sel = sx
+				for i, stt := range sx.States {
+					if strings.HasSuffix(containerFieldOf(stt.Chan), ".delChan") {
+						delCase = i
+					}
+				}
+			}
+		}
+		var delEdges []cfgEdge
+		if sel != nil && delCase >= 0 {
+			for _, b := range f.Blocks {
+				ifi, ok := b.Instrs[len(b.Instrs)-1].(*ssa.If)
+				if !ok {
+					continue
+				}
+				bo, ok := ifi.Cond.(*ssa.BinOp)
+				if !ok || bo.Op != token.EQL {
+					continue
+				}
+				ex, ok := bo.X.(*ssa.Extract)
+				k, isK := bo.Y.(*ssa.Const)
+				if ok && isK && ex.Tuple == ssa.Value(sel) && ex.Index == 0 && k.Int64() == int64(delCase) {
+					delEdges = append(delEdges, cfgEdge{b, b.Succs[0]})
+				}
+			}
+		}
+		inExitCase := func(in ssa.Instruction) bool {
+			g := in.Parent()
+			if g == f {
+				for _, e := range delEdges {
+					if edgeDominates(e.from, e.to, in.Block()) {
+						return true
+					}
+				}
+				return false
+			}
+			// in a helper of the bookkeeping loop: every call of the helper lies in the exit case
+			sites := su.staticCallers(g)
+			if len(sites) == 0 {
+				return false
+			}
+			for _, cs := range sites {
+				if cs.Parent() != f {
+					return false
+				}
+				okSite := false
+				for _, e := range delEdges {
+					if edgeDominates(e.from, e.to, cs.Block()) {
+						okSite = true
+					}
+				}
+				if !okSite {
+					return false
+				}
+			}
+			return true
+		}
+		nDown := 0
+		for _, in := range bkInstrs {
+			what := ""
+			switch x := in.(type) {
+			case *ssa.Store:
+				if fa, ok := x.Addr.(*ssa.FieldAddr); ok && fieldAddrName(fa) == "childProcManager.refCount" {
+					if bo, ok := x.Val.(*ssa.BinOp); ok && bo.Op == token.SUB && isRefLoad(bo.X) {
+						what = "refCount is decreased"
+					}
+				}
+			case *ssa.Call:
+				if bi, ok := x.Call.Value.(*ssa.Builtin); ok && bi.Name() == "delete" && len(x.Call.Args) > 0 && strings.HasSuffix(containerFieldOf(x.Call.Args[0]), ".childs") {
+					what = "a worker is removed from the table"
+				}
+			}
+			if what == "" {
+				continue
+			}
+			nDown++
+			R.check(len(delEdges) > 0 && inExitCase(in), "C20.counter", fmt.Sprintf("maintainChildState:write-off#%d", nDown), su.pos(in.Pos()), "a worker is written off only when its exit event arrives", what+" outside the branch that handles a worker's exit event: the exit that follows writes the same worker off again, replacements are over-counted and the pool exceeds --max-procs")
+		}
 		// cap: a comparison finalProcNum > MaxProcs clamps, and addNum = final − current
 		clamp, batch, repl := false, false, false
 		for _, f := range bk {
@@ -577,6 +669,32 @@ func checkC20(c *Ctx) {
 		}
 		R.check(clamp && batch, "C20.cap", "maintainChildState:scale-up-batch", su.pos(f.Pos()), "batch = min(refCount+step, MaxProcs) − refCount", "the scale-up batch is not capped by MaxProcs relative to the reservation counter")
 		R.check(repl, "C20.cap", "maintainChildState:replacement", su.pos(f.Pos()), "replacements are spawned only while refCount < InitProcs", "replacement workers are spawned without the refCount < InitProcs test")
+	}
+
+	// ---- C20.exit: every worker that ends is reported: in the goroutine that waits for the worker process no path from
+	// cmd.Wait() to the goroutine's end skips the send on delChan (a worker that ends with a non-zero status - a timeout
+	// kill, a crash - would otherwise never be replaced)
+	if sp := su.ssaFunc("pkg/server", "ZnPMServer.spawnProcess"); sp != nil {
+		nW := 0
+		for _, g := range family(sp, 1) {
+			for _, w := range su.callsNamed(g, "os/exec.Cmd.Wait") {
+				wi, ok := w.(ssa.Instruction)
+				if !ok {
+					continue
+				}
+				nW++
+				isSendDel := func(x ssa.Instruction) bool {
+					sd, ok := x.(*ssa.Send)
+					return ok && strings.HasSuffix(containerFieldOf(sd.Chan), ".delChan")
+				}
+				isRet := func(x ssa.Instruction) bool { _, ok := x.(*ssa.Return); return ok }
+				skip := reachableAvoiding(wi.Block(), instrIndex(wi)+1, isRet, isSendDel)
+				R.check(skip == nil, "C20.exit", su.fname(g)+":exit-reported", su.pos(wi.Pos()), "after cmd.Wait() every path sends the pid on delChan", "the goroutine that waits for a worker can end without reporting the exit on delChan (e.g. when Wait returns an error: non-zero status after a timeout kill or a crash): the stale worker stays in the table, refCount is not decreased and no replacement is started - the pool stays below --init-procs")
+			}
+		}
+		if nW == 0 {
+			R.viol("C20.exit", "spawnProcess:wait", su.pos(sp.Pos()), "no cmd.Wait() found in spawnProcess or the goroutine it starts")
+		}
 	}
 
 	// ---- C20.env: the worker's timeout (and pipe id, child flag) reach it through the environment; os/exec keeps the
@@ -709,4 +827,192 @@ func flowsFromBin(v ssa.Value, pred func(ssa.Value) bool) bool {
 		}
 	}
 	return false
+}
+
+// ruleDupFresh: DuplicateValue hands out a fresh value for every kind of value that some operation changes in place.
+// The kinds are found in the code: a value type of pkg/value is changeable when a built-in method (func(receiver, []Element) (Element, error))
+// stores into one of its fields (Array, HashMap, Number through 自增, String through 转换数值 …). Objects are shared by
+// design (C07). A kind that is returned as it is becomes shared wherever a copy is expected: the defaults of a
+// library class, handed out through DuplicateValue, then carry one execution's changes into the next.
+func ruleDupFresh(c *Ctx, u *Universe, rule string) {
+	R := c.R
+	f := u.ssaFunc("pkg/value", "DuplicateValue")
+	if f == nil || len(f.Params) != 1 {
+		R.lost(rule, "pkg/value.DuplicateValue")
+		return
+	}
+	mutable := map[string]string{}
+	for _, g := range u.srcFuncs("pkg/value") {
+		// writers that a Zn program can reach: the built-in methods, func(receiver, []Element) (Element, error)
+		sig := g.Signature
+		if sig.Results().Len() != 2 || !isErrorType(sig.Results().At(1).Type()) || !isElementIface(sig.Results().At(0).Type()) {
+			continue
+		}
+		takesArgs := false
+		for i := 0; i < sig.Params().Len(); i++ {
+			if sl, ok := sig.Params().At(i).Type().Underlying().(*types.Slice); ok && isElementIface(sl.Elem()) {
+				takesArgs = true
+			}
+		}
+		if !takesArgs {
+			continue
+		}
+		for _, in := range instrsOf(g) {
+			var fa *ssa.FieldAddr
+			switch x := in.(type) {
+			case *ssa.Store:
+				fa, _ = x.Addr.(*ssa.FieldAddr)
+			case *ssa.MapUpdate:
+				if un, ok := x.Map.(*ssa.UnOp); ok {
+					fa, _ = un.X.(*ssa.FieldAddr)
+				}
+			}
+			if fa == nil {
+				continue
+			}
+			n := fieldAddrName(fa)
+			if i := strings.Index(n, "."); i > 0 {
+				if _, seen := mutable[n[:i]]; !seen {
+					mutable[n[:i]] = u.fname(g)
+				}
+			}
+		}
+	}
+	nCase := 0
+	for _, b := range f.Blocks {
+		ifi, ok := b.Instrs[len(b.Instrs)-1].(*ssa.If)
+		if !ok {
+			continue
+		}
+		ex, ok := ifi.Cond.(*ssa.Extract)
+		if !ok || ex.Index != 1 {
+			continue
+		}
+		ta, ok := ex.Tuple.(*ssa.TypeAssert)
+		if !ok || ta.X != ssa.Value(f.Params[0]) {
+			continue
+		}
+		tn := recvNamed(ta.AssertedType)
+		writer, isMut := mutable[tn]
+		if !isMut || tn == "Object" {
+			continue
+		}
+		nCase++
+		// on the edge where the input is of this kind, no return hands the input itself back
+		same := ""
+		for _, rr := range returnsReachable(b.Succs[0], 0, nil) {
+			if !edgeDominates(b, b.Succs[0], rr.Ret.Block()) {
+				// a body shared by several kinds: reachable from this edge all the same
+			}
+			for _, src := range allSources(retValue(rr.Ret, 0)) {
+				if src == ssa.Value(f.Params[0]) {
+					same = u.pos(rr.Ret.Pos())
+				}
+				if t2, isTA := src.(*ssa.TypeAssert); isTA && t2.X == ssa.Value(f.Params[0]) {
+					same = u.pos(rr.Ret.Pos())
+				}
+				if e2, isE := src.(*ssa.Extract); isE {
+					if t2, isTA := e2.Tuple.(*ssa.TypeAssert); isTA && t2.X == ssa.Value(f.Params[0]) {
+						same = u.pos(rr.Ret.Pos())
+					}
+				}
+			}
+		}
+		R.check(same == "", rule, "pkg/value.DuplicateValue:"+tn, u.pos(f.Pos()), "a value of this kind is copied", "a "+tn+" is handed back as it is (return at "+same+") although "+writer+" changes such a value in place: wherever a copy is expected (variables, the defaults of library classes shared by all executions) one holder's change reaches the others")
+	}
+	if nCase < 3 {
+		R.viol(rule, "pkg/value.DuplicateValue:kinds", u.pos(f.Pos()), fmt.Sprintf("expected the changeable kinds (Array, HashMap, Number, String …) among the cases of the copy routine, found %d", nCase))
+	}
+}
+
+// plainTableElem: a value a lookup table may hold: functions and basic values, and structs / arrays of those
+func plainTableElem(t types.Type, depth int) bool {
+	if depth > 3 {
+		return false
+	}
+	switch x := t.Underlying().(type) {
+	case *types.Basic, *types.Signature:
+		return true
+	case *types.Struct:
+		for i := 0; i < x.NumFields(); i++ {
+			if !plainTableElem(x.Field(i).Type(), depth+1) {
+				return false
+			}
+		}
+		return true
+	case *types.Array:
+		return plainTableElem(x.Elem(), depth+1)
+	}
+	return false
+}
+
+// readOnlyLookupTable: "" unless the global named key (pkgrel.name) is a map / slice / array of plain table elements
+// whose every load is only indexed, ranged over or measured
+func readOnlyLookupTable(u *Universe, key string, t types.Type) string {
+	var elem types.Type
+	switch x := t.Underlying().(type) {
+	case *types.Map:
+		if _, basicKey := x.Key().Underlying().(*types.Basic); !basicKey {
+			return ""
+		}
+		elem = x.Elem()
+	case *types.Slice:
+		elem = x.Elem()
+	case *types.Array:
+		elem = x.Elem()
+	default:
+		return ""
+	}
+	if !plainTableElem(elem, 0) {
+		return ""
+	}
+	n := 0
+	for _, rel := range corePkgs {
+		for _, f := range u.srcFuncs(rel) {
+			root := f
+			for root.Parent() != nil {
+				root = root.Parent()
+			}
+			isInit := root.Name() == "init" || strings.HasPrefix(root.Name(), "init#")
+			for _, in := range instrsOf(f) {
+				un, ok := in.(*ssa.UnOp)
+				if !ok || un.Op != token.MUL {
+					continue
+				}
+				g, ok := un.X.(*ssa.Global)
+				if !ok || g.Pkg == nil || strings.TrimPrefix(strings.TrimPrefix(g.Pkg.Pkg.Path(), modPath), "/")+"."+g.Name() != key {
+					continue
+				}
+				if isInit {
+					continue
+				}
+				n++
+				for _, r := range *un.Referrers() {
+					switch y := r.(type) {
+					case *ssa.Lookup:
+						if y.X != ssa.Value(un) {
+							return ""
+						}
+					case *ssa.Index:
+					case *ssa.IndexAddr:
+						// reading an element is fine; the address must only be loaded from
+						for _, r2 := range *y.Referrers() {
+							if l, isLoad := r2.(*ssa.UnOp); !isLoad || l.Op != token.MUL {
+								return ""
+							}
+						}
+					case *ssa.Range:
+					case *ssa.Call:
+						if bi, isB := y.Call.Value.(*ssa.Builtin); !isB || bi.Name() != "len" {
+							return ""
+						}
+					case *ssa.DebugRef:
+					default:
+						return ""
+					}
+				}
+			}
+		}
+	}
+	return fmt.Sprintf("%s of plain values / functions, read at %d place(s) by indexing only", typeShort(t), n)
 }
